@@ -5,10 +5,16 @@
     (maximal runs, first comment closer) and fix its values on a set of pinned neighbourhoods;
     (b) the check, which runs the extracted [reflex] and the implementation on the same
     macro-free inputs and reports every difference as a violation with the (shrunk) input.
-    Partial: [lex = reflex on macro-free text] is established by execution, not by a theorem. *)
+    (c) [C11_lexer_is_reference_partial]: on macro-free text without quote characters the lexer
+    model's release-profile run returns, is not cut by the budget, and yields exactly the
+    reference reading - types, channels, byte offsets and payloads of all tokens, kinds and offsets
+    of all errors, the literal buffer - for every such text, by simulation of every lexeme class
+    (whitespace, comments, symbols, numbers, identifiers and keywords, character formats,
+    datalines blocks, statement comments).  The full statement [C11_statement] drops the quote
+    restriction; for quoted literals it is established by execution (b), not yet by a theorem. *)
 From Coq Require Import NArith List Bool String Ascii.
 From SasLexer Require Import Gen.TokenType Gen.ErrorKind Gen.Channel Model.Base Model.Helpers Model.Numeric
-     Spec.RefLex Proofs.RefLexProofs.
+     Model.Core Model.Lexer3 Spec.RefLex Proofs.RefLexProofs Proofs.OcBase Proofs.OcWhole Proofs.OcAll.
 Import ListNotations.
 Open Scope N_scope.
 
@@ -40,9 +46,32 @@ Theorem C11_star_depends_on_statement_position : forall r pos lit n prev,
 Proof. exact reflex_star_position. Qed.
 Print Assumptions C11_star_depends_on_statement_position.
 
-(** pinned neighbourhoods (evaluated by the kernel) *)
 Fixpoint chars_of_string (s : string) : list char :=
   match s with EmptyString => [] | String a r => N_of_ascii a :: chars_of_string r end.
+(** the property, for the lexer model: its result on macro-free text is the reference reading *)
+Definition agrees (msep : bool) (src : list char) : Prop :=
+  let r := lex (mkCfg false msep) src in
+  let '(T, E, lit) := reflex src in
+  lr_outcome r = None /\ s_aborted (lr_state r) = false /\
+  map tv0 (b_toks (lr_buffer r)) = map rv T /\ map ev0 (lr_errors r) = map rve E /\
+  b_lit (lr_buffer r) = lit.
+
+Definition C11_statement : Prop := forall msep src, macro_free (body_of src) = true -> agrees msep src.
+
+Theorem C11_lexer_is_reference_partial : forall msep src,
+  macro_free (body_of src) = true -> forallb no_quote (body_of src) = true -> agrees msep src.
+Proof.
+  intros msep src H1 H2. apply lex_is_reflex_noquote. unfold okP. rewrite H1, H2. reflexivity.
+Qed.
+Print Assumptions C11_lexer_is_reference_partial.
+
+(** the premises are satisfiable: "data a; x=1.5e3*b; run;" *)
+Example c11_partial_example :
+  let src := chars_of_string "data a; x=1.5e3*b; run;" in
+  macro_free (body_of src) = true /\ forallb no_quote (body_of src) = true.
+Proof. vm_compute. split; reflexivity. Qed.
+
+(** pinned neighbourhoods (evaluated by the kernel) *)
 Definition types_of (s : string) : list TokenType := map rt_type (fst (fst (reflex (chars_of_string s)))).
 
 Example c11_examples :
